@@ -17,6 +17,13 @@ CLAIMED = {
                   "=> mss*N / mtu*N cannot match. " + TIE,
              note="Trusted: Coq kernel; extraction+driver; generator/worker; hand-written model of calculate_window_multiplier. No axioms.",
              tech="Coq proof (first-divisor characterisation) + extracted-model differential correspondence", ref="DESIGN.md section 4 C17"),
+ "C02": dict(text="Coq theorems for all databases x packets: the single-pass loop with its two accumulators equals the three 'earliest such record' "
+                  "searches (specific exact, generic exact, first fuzzy unless class '!'), the result is a matching member of the consulted list, only "
+                  "the packet direction's section is read, distance formula and 0..255 range (via the C01 type theorem), packet gate, unloaded "
+                  "database -> DatabaseError. " + TIE,
+             note="Trusted: as C01; the packet signature given to the model is the one the implementation extracted from the same bytes "
+                  "(extraction is C03's tie). No axioms.",
+             tech="Coq proof (loop = declarative selection) + extracted-model differential correspondence through fingerprint_tcp", ref="DESIGN.md section 4 C02"),
 }
 def main():
     checks = []
